@@ -111,6 +111,9 @@ int main(int argc, char** argv) {
                 else if (t == "mls") fel.push_back(Force::MobilityLinearSpring(forces, mb[(int)e["b"].num()], MobilizerQIndex((int)e["k"].num() - 1), e["c"].dbl(), e["q0"].dbl()));
                 else if (t == "mld") fel.push_back(Force::MobilityLinearDamper(forces, mb[(int)e["b"].num()], MobilizerUIndex((int)e["k"].num() - 1), e["c"].dbl()));
                 else if (t == "gdamper") fel.push_back(Force::GlobalDamper(forces, matter, e["c"].dbl()));
+                else if (t == "tpls") fel.push_back(Force::TwoPointLinearSpring(forces, mb[(int)e["b"].num()], vec(e["st"]), mb[(int)e["b2"].num()], vec(e["st2"]), e["c"].dbl(), e["x0"].dbl()));
+                else if (t == "tpld") fel.push_back(Force::TwoPointLinearDamper(forces, mb[(int)e["b"].num()], vec(e["st"]), mb[(int)e["b2"].num()], vec(e["st2"]), e["c"].dbl()));
+                else if (t == "tpcf") fel.push_back(Force::TwoPointConstantForce(forces, mb[(int)e["b"].num()], vec(e["st"]), mb[(int)e["b2"].num()], vec(e["st2"]), e["c"].dbl()));
                 else throw std::runtime_error("unknown force element " + t);
                 fel.back().setDisabledByDefault(true);
             }
@@ -368,6 +371,21 @@ int main(int argc, char** argv) {
                             for (int i = 1; i <= N; ++i) { const SpatialVec& V = mb[i].getBodyVelocity(sf); const SpatialVec& W = bf[mb[i].getMobilizedBodyIndex()]; pw += ~W[0] * V[0] + ~W[1] * V[1]; }
                             for (int j = 0; j < nu; ++j) pw += mf[j] * sf.getU()[j]; }
                         js << (k ? "," : "") << num(pw);
+                    }
+                    // interaction elements: their own contribution on every body INCLUDING Ground, and the third-law residuals
+                    // (total force, total moment about the Ground origin) of that contribution
+                    js << "],\"tp\":[";
+                    bool firstTp = true;
+                    for (size_t k = 0; k < fel.size(); ++k) {
+                        const string t = FE[(int)k]["type"].str();
+                        if (!(t == "tpls" || t == "tpld" || t == "tpcf") || !FE[(int)k]["on"].num()) continue;
+                        Vector_<SpatialVec> bf; Vector_<Vec3> pf; Vector mf; fel[k].calcForceContribution(sf, bf, pf, mf);
+                        Vec3 ftot(0), mtot(0);
+                        js << (firstTp ? "" : ",") << "{\"k\":" << k << ",\"W\":["; firstTp = false;
+                        for (int i = 0; i <= N; ++i) { const SpatialVec& W = bf[mb[i].getMobilizedBodyIndex()]; const Vec3 o = mb[i].getBodyOriginLocation(sf);
+                            ftot += W[1]; mtot += W[0] + o % W[1];
+                            js << (i ? "," : "") << "{\"t\":" << jv(W[0]) << ",\"f\":" << jv(W[1]) << "}"; }
+                        js << "],\"mobnorm\":" << num(mf.size() ? mf.normInf() : 0.0) << ",\"ftot\":" << jv(ftot) << ",\"mtot\":" << jv(mtot) << ",\"pe\":" << num(fel[k].calcPotentialEnergyContribution(sf)) << "}";
                     }
                     js << "]}";
                 }
